@@ -145,6 +145,78 @@ def main():
         return False
     case("one unit of a plan moved to another sink", tr, "TraceAlgo", m_alloc, "C13")
 
+
+    api = record("record_proto", "rel", "api", 12, {}, d, "api")
+
+    def m_api_wl(evs):
+        for e in evs:
+            if e["e"] == "Api" and e["outcome"] == "ok" and e["circ"]["nets"]:
+                e["wl"] += 1
+                return True
+        return False
+    case("api history: hpwl() off by one after a mutator", api, "TraceCircuit", m_api_wl, "C09")
+
+    def m_api_accept(evs):
+        for e in evs:
+            if e["e"] == "Api" and e["outcome"] == "error":
+                e["outcome"] = "ok"
+                return True
+        return False
+    case("api history: invalid call reported as accepted", api, "TraceCircuit", m_api_accept, "C19")
+
+    def m_api_free(evs):
+        for e in evs:
+            if e["e"] == "Api" and len(e["free"]) >= 1:
+                e["free"][0]["x1"] -= 1
+                return True
+        return False
+    case("api history: one free row shortened", api, "TraceCircuit", m_api_free, "C15")
+
+    def m_api_arg(evs):
+        # the logged argument no longer matches what the object did: the model state diverges and the observers see it
+        for e in evs:
+            if e["e"] == "Api" and e["kind"] == "setCellX" and e["outcome"] == "ok" and e["circ"]["nets"] and len(e["arg"]["v"]) >= 1:
+                pinned = {p["c"] for n in e["circ"]["nets"] for p in n["pins"]}
+                for i in range(len(e["arg"]["v"])):
+                    if (i + 1) in pinned:
+                        e["arg"]["v"][i] += 1000
+                        return True
+        return False
+    case("api history: logged argument differs from the call", api, "TraceCircuit", m_api_arg, "C09")
+
+    free = record("record", "rel", "free", 12, {}, d, "free")
+
+    def m_use(evs):
+        for e in evs:
+            if e["e"] == "FreeUse" and e["kind"] == "legalizer" and e["rows"]:
+                del e["rows"][0]
+                return True
+        return False
+    case("a consumer lost one free row", free, "TraceCircuit", m_use, "C15")
+
+    incr = record("record", "rel", "incr", 8, {"maxNets": 8}, d, "incr")
+
+    def m_scale(evs):
+        for e in evs:
+            if e["e"] == "HpwlScale":
+                e["r"] = 1
+                return True
+        return False
+    case("magnified circuit: remainder not zero", incr, "TraceCircuit", m_scale, "C09")
+
+    netw = record("record_algo", "rel", "netw", 12, {}, d, "netw")
+
+    def m_build(evs):
+        for e in evs:
+            if e["e"] == "NetBuild" and e["built"]:
+                e["built"][0]["w1024"] = 1024
+                e["built8"][0]["w1024"] = 128
+                if all(n["w4"] == 4 for n in e["nets"]):
+                    continue
+                return True
+        return False
+    case("built net model carries weight 1 instead of the given weight", netw, "TraceAlgo", m_build, "C17")
+
     os.makedirs(os.path.join(vlib.VERIF, "selftest"), exist_ok=True)
     with open(os.path.join(vlib.VERIF, "selftest", "RESULTS.json"), "w") as f:
         json.dump(results, f, indent=1)
